@@ -163,6 +163,16 @@ def run(tier, args):
         agg.samples.append({"seed": lo, "cfg": sc["cfg"], "tree_blocks": len(sc["tree"]), "ops_head": sc["ops"][:25]})
     except HarnessError:
         pass
+    # ---- A2: long main chains (270-420 blocks: heights above 255, whose little-endian key bytes no longer
+    # sort like the numbers), constant toy epochs, the same operations and oracles
+    n_long = 0 if args.seeds else (16 if tier == "quick" else 1500)
+    fails_before = len(agg.fail)
+    nc.sweep("C10L", lo + 30_000_000, n_long, agg=agg)
+    for seed, v in agg.fail[fails_before:]:
+        try:
+            failing.append((nc.gen_scenario("C10L", seed), v, "single"))
+        except HarnessError:
+            failing.append(({"seed": seed, "prop": PROP, "ops": []}, v, "single"))
     # ---- B
     twins = 0
     answers = 0
@@ -214,7 +224,7 @@ def run(tier, args):
     unknown = report(failing, nc.exec_scenario)
     wall = time.time() - t0
     cov = nc.evidence_cov(agg, wall,
-        "one evaluation = one simulated run of the real node with the freezer enabled (real ckb-freezer files, Shared::freeze / wipe_out_frozen_data, ChainDB freezer branches). (A) seeded histories of 30-90 blocks over toy epochs with forks at heights that later get frozen, uncles, proposals, extensions, orphan-first and duplicate deliveries, 4-13 freeze passes at arbitrary operation indexes (also with blocks in flight in the chain stages), orphan-cleaner ticks and clean restarts; after EVERY pass, after every restart and at the end: for every main-chain block get_block / get_packed_block / header / body / tx hashes / cellbase / uncles / proposals / extension / get_ancestor / get_transaction_with_info must return exactly what the reference model built, the full store state must equal the model's replay (live cells, tx index, epochs, BlockExt, MMR), Freezer::number must not decrease, must stay at or below the last block of epoch(tip)-2 and at 1 before the third epoch; queries for delivered side-chain blocks at frozen heights must answer None or that very block, never another block's data, never panic. (B) the same history with the freezer off (executing the same effective operations): every answer about main-chain blocks and every verdict must be identical. (C) per sampled history every crash point inside every pass (see coverage.crash_points_enumerated) then restart: reopen must succeed, all of the above must hold after recovery and at the end the answers must equal the never-crashed run's when the tip is the same. distinct = hash of the executed operation/segment sequence; non-trivial = at least one block was moved into the freezer",
+        "one evaluation = one simulated run of the real node with the freezer enabled (real ckb-freezer files, Shared::freeze / wipe_out_frozen_data, ChainDB freezer branches). (A) seeded histories of 30-90 blocks over toy epochs with forks at heights that later get frozen, uncles, proposals, extensions, orphan-first and duplicate deliveries, 4-13 freeze passes at arbitrary operation indexes (also with blocks in flight in the chain stages), orphan-cleaner ticks and clean restarts; after EVERY pass, after every restart and at the end: for every main-chain block get_block / get_packed_block / header / body / tx hashes / cellbase / uncles / proposals / extension / get_ancestor / get_transaction_with_info must return exactly what the reference model built, the full store state must equal the model's replay (live cells, tx index, epochs, BlockExt, MMR), Freezer::number must not decrease, must stay at or below the last block of epoch(tip)-2 and at 1 before the third epoch; queries for delivered side-chain blocks at frozen heights must answer None or that very block, never another block's data, never panic. (B) the same history with the freezer off (executing the same effective operations): every answer about main-chain blocks and every verdict must be identical. (C) per sampled history every crash point inside every pass (see coverage.crash_points_enumerated) then restart: reopen must succeed, all of the above must hold after recovery and at the end the answers must equal the never-crashed run's when the tip is the same. distinct = hash of the executed operation/segment sequence; non-trivial = at least one block was moved into the freezer A further family (16 runs quick / 1500 thorough) uses main chains of 270-420 blocks with constant toy epochs, so that frozen and unfrozen heights lie on both sides of 255 (the number-hash keys are little-endian: byte order stops matching numeric order there).",
         {"twin_pairs_compared": twins, "answers_compared_per_twin_total": answers, "crash_histories": hist[:50], "crash_points_enumerated": points,
          "enumeration": "per sampled history: every RocksDB write inside every freeze pass x {die before, die after}; every hit of the ckb-freezer fail points write-head and write-index inside every pass x {process death, process death + loss of a seeded part of the un-fsynced tail}; plus seeded double crashes"})
     cov["real_components"] = nc.REAL + ["ckb-freezer (Freezer, FreezerFiles: real files on tmpfs), Shared::freeze, wipe_out_frozen_data, compact_block_body, ChainDB::new_with_freezer and every freezer branch of ChainStore"]
